@@ -340,6 +340,118 @@ theorem chain_depthOK : DepthOK chain := by
           · rcases chain_children _ _ hx with ⟨h, -⟩ | ⟨h, -⟩ <;> omega
         · rcases chain_children _ _ hd with ⟨h, -⟩ | ⟨h, -⟩ <;> omega
 
+/-! ### acyclic HasSubtype graphs satisfy `DepthOK` -/
+
+abbrev Edge := Nat × Nat × Nat
+
+/-- `es` is a chain of HasSubtype references of `refs` leading from `a` to `b` -/
+def IsChain (refs : List Edge) : Nat → Nat → List Edge → Prop
+  | a, b, [] => a = b
+  | a, b, e :: es => e ∈ refs ∧ e.1 = a ∧ e.2.1 = hasSubtype ∧ IsChain refs e.2.2 b es
+
+theorem chain_of_reach (refs : List Edge) (a b : Nat) (h : Reach refs a b) : ∃ es, IsChain refs a b es := by
+  induction h with
+  | refl a => exact ⟨[], rfl⟩
+  | step a c b hc _ ih =>
+    obtain ⟨es, hes⟩ := ih
+    unfold children at hc
+    obtain ⟨r, hr, rfl⟩ := List.mem_map.mp hc
+    obtain ⟨hm, hcond⟩ := List.mem_filter.mp hr
+    simp only [decide_eq_true_eq] at hcond
+    exact ⟨r :: es, hm, hcond.1, hcond.2, hes⟩
+
+theorem reachN_of_chain (refs : List Edge) (es : List Edge) : ∀ a b, IsChain refs a b es → ReachN refs es.length a b := by
+  induction es with
+  | nil => intro a b h; simp only [IsChain] at h; subst h; exact .refl _ _
+  | cons e es ih =>
+    intro a b h
+    obtain ⟨hm, h1, h2, hrest⟩ := h
+    have hc : e.2.2 ∈ children refs a := by
+      unfold children
+      exact List.mem_map.mpr ⟨e, List.mem_filter.mpr ⟨hm, by simp [h1, h2]⟩, rfl⟩
+    exact .step _ _ _ _ hc (ih _ _ hrest)
+
+theorem reachN_mono (refs : List Edge) (n a b : Nat) (h : ReachN refs n a b) : ∀ m, n ≤ m → ReachN refs m a b := by
+  induction h with
+  | refl n a => intro m _; exact .refl _ _
+  | step n a c b hc _ ih =>
+    intro m hm
+    cases m with
+    | zero => omega
+    | succ m => exact .step _ _ _ _ hc (ih m (by omega))
+
+/-- pigeonhole: a duplicate-free list whose elements all occur in `l` is no longer than `l` -/
+theorem length_le_of_nodup_subset (es : List Edge) : ∀ (l : List Edge), es.Nodup → (∀ e ∈ es, e ∈ l) →
+    es.length ≤ l.length := by
+  induction es with
+  | nil => intro l _ _; simp
+  | cons e es ih =>
+    intro l hn hs
+    have hne := List.nodup_cons.mp hn
+    have he : e ∈ l := hs e (by simp)
+    have hsub : ∀ x ∈ es, x ∈ l.erase e := by
+      intro x hx
+      have hxe : x ≠ e := fun h => hne.1 (h ▸ hx)
+      exact (List.mem_erase_of_ne hxe).mpr (hs x (List.mem_cons_of_mem _ hx))
+    have := ih (l.erase e) hne.2 hsub
+    rw [List.length_erase_of_mem he] at this
+    have hpos : 0 < l.length := List.length_pos_of_mem he
+    simp only [List.length_cons]; omega
+
+/-- along a chain in a ranked (hence acyclic) graph the sources strictly increase in rank, so no
+reference is used twice -/
+theorem chain_nodup (refs : List Edge) (rank : Nat → Nat)
+    (hr : ∀ r ∈ refs, r.2.1 = hasSubtype → rank r.1 < rank r.2.2) (es : List Edge) :
+    ∀ a b, IsChain refs a b es → es.Nodup ∧ ∀ e ∈ es, rank a ≤ rank e.1 := by
+  induction es with
+  | nil => intro a b _; simp
+  | cons e es ih =>
+    intro a b h
+    obtain ⟨hm, h1, h2, hrest⟩ := h
+    obtain ⟨hnd, hge⟩ := ih _ _ hrest
+    have hlt := hr e hm h2
+    refine ⟨List.nodup_cons.mpr ⟨?_, hnd⟩, ?_⟩
+    · intro hin
+      have := hge e hin
+      omega
+    · intro x hx
+      rcases List.mem_cons.mp hx with hx | hx
+      · subst hx; rw [h1]; exact Nat.le_refl _
+      · have := hge x hx
+        rw [← h1]; omega
+
+theorem chain_subset (refs : List Edge) (es : List Edge) : ∀ a b, IsChain refs a b es → ∀ e ∈ es, e ∈ refs := by
+  induction es with
+  | nil => intro a b _ e he; simp at he
+  | cons x es ih =>
+    intro a b h e he
+    obtain ⟨hm, -, -, hrest⟩ := h
+    rcases List.mem_cons.mp he with he | he
+    · subst he; exact hm
+    · exact ih _ _ hrest e he
+
+/-- **Every graph whose HasSubtype references go strictly upwards in some rank — i.e. every acyclic
+reference type hierarchy — satisfies `DepthOK`**: a subtype chain cannot use a reference twice, so
+it is no longer than the number of references (the fuel of the model's search).  With this,
+`translate_complete` and `nomatch_complete` hold for all acyclic type graphs. -/
+theorem depthOK_of_ranked (g : Graph) (rank : Nat → Nat)
+    (hr : ∀ r ∈ g.refs, r.2.1 = hasSubtype → rank r.1 < rank r.2.2) : DepthOK g := by
+  intro a b h
+  obtain ⟨es, hes⟩ := chain_of_reach g.refs a b h
+  have hn := (chain_nodup g.refs rank hr es a b hes).1
+  have hlen := length_le_of_nodup_subset es g.refs hn (chain_subset g.refs es a b hes)
+  exact reachN_mono _ _ _ _ (reachN_of_chain g.refs es a b hes) _ hlen
+
+/-- completeness for acyclic (ranked) type graphs, without any further hypothesis -/
+theorem translate_complete_acyclic (g : Graph) (rank : Nat → Nat)
+    (hr : ∀ r ∈ g.refs, r.2.1 = hasSubtype → rank r.1 < rank r.2.2) (s : Nat) (es : List Elem) (ns : List Nat)
+    (h : translate g s es = .ok ns) : ∀ b, PathSpec g es s b → b ∈ ns :=
+  translate_complete g (depthOK_of_ranked g rank hr) s es ns h
+
+/-- the graphs the driver admits (HasSubtype references only from a smaller to a larger id) are ranked
+by the identity -/
+example : DepthOK chain := depthOK_of_ranked chain id (by decide)
+
 /-- following Hierarchical (33) with subtypes finds the node behind the custom subtype -/
 example : translate chain 1 [⟨33, false, true, 2⟩] = .ok [2] := by rfl
 example : translate chain 1 [⟨33, false, false, 2⟩] = .error .badNoMatch := by rfl
